@@ -19,6 +19,8 @@ END=$(date +%s)
 echo "SELFTEST $P $PATCH tier=$TIER rc=$RC wall=$((END-START))s $(echo "$OUT" | grep -c '^VIOLATION') violation line(s)"
 echo "$OUT" | grep -A2 '^VIOLATION' | head -8 | cut -c1-300
 [ $RC -eq 2 ] && echo "$OUT" | tail -15 | cut -c1-300
+# SELFTEST_KEEP=<dir>: keep the replay files of the violations found (tools/harvest_replays.py turns them into the curated replay tier)
+[ -n "${SELFTEST_KEEP:-}" ] && [ -d $D/found/$P ] && mkdir -p "$SELFTEST_KEEP" && cp $D/found/$P/*.json "$SELFTEST_KEEP"/ 2>/dev/null
 rm -rf $D
 # remove the build cache entry of the scratch tree
 exit $RC
